@@ -236,16 +236,16 @@ Proof.
 Qed.
 
 (* ---------- Check + Write on the root composition ---------- *)
-Definition rlog_ok (hi : bool) (nm msg : bytes) (w : Z) (fs : list sfld) (c : lcomp) : Prop :=
+Definition rlog_ok (hi : lvq) (nm msg : bytes) (w : Z) (fs : list sfld) (c : lcomp) : Prop :=
   forall sg m nn, wf_lcomp c = true -> NoDup (all_ids c) -> root_ok m sg c ->
-  exists sg', rlog (mk_entry hi nm msg) hi w fs c sg nn =
+  exists sg', rlog (mk_entry (lv hi) nm msg) hi w fs c sg nn =
                 (swalk (mark_all w (log_ids hi c) m) hi nm msg w fs c [] nn, sg') /\
               root_ok (mark_all w (log_ids hi c) m) sg' c /\
               (forall id, ~ In id (all_ids c) -> lookup id sg' = lookup id sg).
 
 Lemma rlog_list_spec hi nm msg w fs l : Forall (rlog_ok hi nm msg w fs) l ->
   forall sg m nn, forallb wf_lcomp l = true -> NoDup (concat (map all_ids l)) -> Forall (root_ok m sg) l ->
-  exists sg', rlog_list (mk_entry hi nm msg) hi w fs l sg nn =
+  exists sg', rlog_list (mk_entry (lv hi) nm msg) hi w fs l sg nn =
                 (swalk_list (mark_all w (concat (map (log_ids hi) l)) m) hi nm msg w fs [] l nn, sg') /\
               Forall (root_ok (mark_all w (concat (map (log_ids hi) l)) m) sg') l /\
               (forall id, ~ In id (concat (map all_ids l)) -> lookup id sg' = lookup id sg).
